@@ -21,7 +21,11 @@ Base(ln, w, lb, fold, rem, q) ==
 \* a base statement whose highest-degree constraint also carries a periodic factor (degree 3, one cycle => blowup 4)
 BaseP == [Base(4, 2, 2, 2, 3, 10) EXCEPT !.degs = <<1, 3>>, !.pcol = <<0, 1>>, !.cycles = <<8>>]
 
-Init == /\ t \in {Base(3, 1, 1, 2, 0, 3), Base(4, 2, 2, 4, 7, 8), Base(5, 3, 3, 2, 3, 20), Base(6, 8, 3, 8, 31, 12), BaseP}
+\* a base statement with every assertion template and four exemptions: the last steps of the periodic and sequence assertions
+\* are reached by no enforced transition, so only the boundary constraints protect them
+BaseA == [Base(4, 3, 2, 2, 3, 10) EXCEPT !.k = 4, !.nasserts = 6]
+
+Init == /\ t \in {Base(3, 1, 1, 2, 0, 3), Base(4, 2, 2, 4, 7, 8), Base(5, 3, 3, 2, 3, 20), Base(6, 8, 3, 8, 31, 12), BaseP, BaseA}
         /\ Admissible(t) /\ d = 0
 
 DegsFor(w, lb, v) == [i \in 1..w |-> IF i = w THEN Min2(v, 2 ^ lb + 1) ELSE 1 + (i % 2)]
@@ -32,7 +36,7 @@ Variants(s) ==
     \cup {[s EXCEPT !.pcol = [i \in 1..s.width |-> IF i = 1 THEN 1 ELSE 0], !.cycles = <<x>>] : x \in {2, 4, 8, 2 ^ s.ln}}
     \cup {[s EXCEPT !.pcol = [i \in 1..s.width |-> IF i = s.width THEN 1 ELSE 0], !.cycles = <<x>>] : x \in {2, 2 ^ (s.ln - 1)}}
     \cup {[s EXCEPT !.k = x] : x \in {1, 2, 3, 2 ^ s.ln \div 2, 2 ^ s.ln \div 2 + 1, MaxExemptions(s)}}
-    \cup {[s EXCEPT !.nasserts = x] : x \in {1, 2, 3, 5}}
+    \cup {[s EXCEPT !.nasserts = x] : x \in {1, 2, 3, 5, 6}}
     \cup {[s EXCEPT !.q = x] : x \in {1, 2, 27, 64, 128, 254, 255}}
     \cup {[s EXCEPT !.lb = x] : x \in 1..7}
     \cup {[s EXCEPT !.grind = x] : x \in {0, 1, 8, 16}}
@@ -46,18 +50,21 @@ Next == /\ d < Depth
         /\ d' = d + 1
 
 \* every possible number of unique query positions
-HonestOK == \A u \in {1, Min2(t.q, 254), t.q} : HonestPathOK(t, u, Fixed)
-StaysAdmissible == Admissible(t)
+HonestOK == \A u \in {1, Min2(t.q, 254), t.q} : HonestPathOK(t, u, Fixed) /\ HonestPathOK(Effective(t), u, Fixed)
+StaysAdmissible == Admissible(t) /\ Admissible(Effective(t))
 \* corrupted-cell positions for the soundness scenarios: first step, around the exemption boundary, last step, every
 \* kind of asserted step, an interior step; in the first, an assertion-carrying and the last column
+\* the last step an assertion names
+LastStepOf(a) == CHOOSE m \in StepsOfA(a, N(t)) : \A x \in StepsOfA(a, N(t)) : x <= m
 CorruptCols  == {0, t.width - 1} \cup {Asserts(t)[x].col : x \in 1..t.nasserts}
 CorruptSteps == ({0, 1, N(t) \div 2, N(t) - t.k - 1, N(t) - t.k, N(t) - t.k + 1, N(t) - 1}
-                 \cup UNION {{a.first, a.first + a.stride} : a \in {Asserts(t)[x] : x \in 1..t.nasserts}})
+                 \cup UNION {{a.first, a.first + a.stride} : a \in {Asserts(t)[x] : x \in 1..t.nasserts}}
+                 \cup {LastStepOf(Asserts(t)[x]) : x \in 1..t.nasserts})
                 \cap (0..(N(t) - 1))
 Corruptions  == IF IOEnv.ST_SOUND = "1"
                 THEN SetToSeq({[c |-> c, i |-> i, violated |-> Violated(t, c, i)] : c \in CorruptCols, i \in CorruptSteps})
                 ELSE <<>>
 Emit == PrintT(ToJson([t |-> t, asserts |-> Asserts(t), corruptions |-> Corruptions,
-                        ccols |-> NumCompositionCols(t), layers |-> NumFriLayers(t)]))
+                        ccols |-> NumCompositionCols(Effective(t)), layers |-> NumFriLayers(t)]))
 View == t
 =============================================================================
